@@ -163,7 +163,7 @@ impl Campaign for C07c {
         "C07"
     }
     fn rule(&self) -> &'static str {
-        "seeded scenarios: 1-3 connections sending 1..4 requests each at instants placed around the receivers' deadlines (T/4, T/2, T-1ms, T-500us, T, T+500us, ...), 1-4 receiver threads each running a generated mix of recv / recv_timeout(T in {2ms,50ms,1s}) / try_recv+sleep / iterator next, strict and racy virtual time, spurious condvar wake-ups on/off, notify_one target chosen by the scheduler; non-trivial = at least one receiver blocked and was later handed a request, with >= 2 receivers; distinct = interleaving fingerprint"
+        "seeded scenarios: 1-3 connections sending 1..4 requests each at instants placed around the receivers' deadlines (T/4, T/2, T-1ms, T-500us, T, T+500us, ...), 1-4 receiver threads each running a generated mix of recv / recv_timeout(T in {2ms,50ms,1s}) / try_recv+sleep / iterator next (one run in eight: threads that only poll with try_recv, before and after 0-3 unblock calls, and must end up with every request), strict and racy virtual time, spurious condvar wake-ups on/off, notify_one target chosen by the scheduler; non-trivial = at least one receiver blocked and was later handed a request, with >= 2 receivers; distinct = interleaving fingerprint"
     }
     fn runs(&self, tier: Tier) -> u64 {
         match tier {
@@ -180,6 +180,36 @@ impl Campaign for C07c {
         let mut g = rng.sub("scenario");
         let t = *g.pick(&TS);
         gen_conns(&mut g, &mut sc, t);
+        if index % 8 == 7 {
+            // an application that never blocks: one or two threads poll with try_recv, a few times
+            // while the requests arrive and then, after everything has been sent and queued,
+            // more often than there are requests and unblock calls together
+            sc.knobs.racy_time = false;
+            let p: usize = (0..sc.conns.len()).map(|ci| conn_requests(&sc, ci).len()).sum();
+            let u = g.usize(0, 3);
+            let mut times: Vec<u64> = (0..u).map(|_| *g.pick(&offsets(t))).collect();
+            times.sort();
+            for tm in times {
+                sc.driver.push(DriverStep::SleepUntil(tm));
+                sc.driver.push(DriverStep::Unblock(1));
+            }
+            for _ in 0..g.usize(1, 2) {
+                let mut calls = vec![];
+                for _ in 0..g.usize(0, 4) {
+                    calls.push(RecvCall::TryRecv);
+                    calls.push(RecvCall::Sleep(*g.pick(&[t / 4, t / 2, t])));
+                }
+                // the clients are done after at most 2T + 4 pauses of at most 2T each
+                calls.push(RecvCall::Sleep(12 * t + SEC));
+                for _ in 0..p + u + 2 {
+                    calls.push(RecvCall::TryRecv);
+                    calls.push(RecvCall::Sleep(MS));
+                }
+                sc.receivers.push(Receiver { start_at: 0, calls, dispatch: Dispatch::Inline });
+            }
+            sc.note = format!("C07 index {} T={}ns pollers only, {} unblock calls", index, t, u);
+            return sc;
+        }
         let c = g.usize(1, 4);
         let closer = g.chance(1, 2);
         sc.receivers = gen_receivers(&mut g, c, t, true, closer);
@@ -224,6 +254,23 @@ impl Campaign for C07c {
                     main.t, undelivered, blocked, describe_blocked(main)
                 ),
             });
+        }
+        if sc.note.contains("pollers only") {
+            // every poller made more try_recv calls after the last request was queued than there
+            // are requests and unblock tokens: each call takes one of them while any is left
+            if all_sent && !undelivered.is_empty() {
+                v.violations.push(Violation {
+                    clause: "C07.polled".into(),
+                    signature: "a queued request is never handed to an application that keeps calling try_recv".into(),
+                    detail: format!(
+                        "{}: requests {:?} were sent completely but never returned by try_recv although every polling thread called it at least {} more times (1 ms apart) after all clients had finished",
+                        sc.note, undelivered, ids.len() + 2
+                    ),
+                });
+            }
+            v.nontrivial = ids.len() >= 2 || !sc.driver.is_empty();
+            v.tags.push("pollers".into());
+            return v;
         }
         let woken = out.obs.events.iter().any(|e| matches!(e, Ev::RecvCall { res: RecvRes::Got(_), seq0, seq1, .. } if seq1 > &(seq0 + 8)));
         v.nontrivial = woken && sc.receivers.len() >= 2;
